@@ -28,26 +28,45 @@ def write(ws, rel, data, mode=None):
         os.chmod(p, mode)
 
 
-def push(ws, args=(), env=None, timeout=60, binary=None, retry_ok=False):
-    """Run `rapidquilt push <args>` with cwd = ws.  Returns (rc, stdout, stderr)."""
+def push(ws, args=(), env=None, timeout=60, binary=None, retry_ok=False, via_d=None):
+    """Run `rapidquilt push <args>` on the workspace.  Returns (rc, stdout, stderr).
+    Every fourth workspace (by its name) is addressed with `-d <ws>` from an empty directory elsewhere instead of
+    cwd = ws; nothing may appear in that directory (a stray write yields rc -998, which every caller treats as a crash)."""
+    import zlib
     e = dict(ENV)
     if env:
         e.update(env)
-    try:
-        p = subprocess.run([binary or vlib.BIN, 'push'] + [str(a) for a in args], cwd=ws, env=e,
-                           stdout=subprocess.PIPE, stderr=subprocess.PIPE, timeout=timeout)
+    if via_d is None:
+        via_d = zlib.crc32(ws.encode()) % 4 == 0
+    cwd = ws
+    argv = [binary or vlib.BIN, 'push'] + [str(a) for a in args]
+    if via_d:
+        base = os.path.join(vlib.SHM, 'rqverif.ws.%d' % os.getpid())
+        os.makedirs(base, exist_ok=True)
+        cwd = tempfile.mkdtemp(prefix='cwd.', dir=base)
+        argv += ['-d', ws]
+
+    def run(t):
+        p = subprocess.run(argv, cwd=cwd, env=e, stdout=subprocess.PIPE, stderr=subprocess.PIPE, timeout=t)
         return p.returncode, p.stdout.decode('utf-8', 'replace'), p.stderr.decode('utf-8', 'replace')
-    except subprocess.TimeoutExpired:
-        # a loaded machine is not a hang: only a run that also exceeds a far longer limit counts as one.
-        # (Re-running is harmless for the callers that look at a timeout: they judge the exit status only.)
-        if not retry_ok:
-            return -999, '', 'TIMEOUT'
+    try:
         try:
-            p = subprocess.run([binary or vlib.BIN, 'push'] + [str(a) for a in args], cwd=ws, env=e,
-                               stdout=subprocess.PIPE, stderr=subprocess.PIPE, timeout=timeout * 6)
-            return p.returncode, p.stdout.decode('utf-8', 'replace'), p.stderr.decode('utf-8', 'replace')
+            r = run(timeout)
         except subprocess.TimeoutExpired:
-            return -999, '', 'TIMEOUT'
+            # a loaded machine is not a hang: only a run that also exceeds a far longer limit counts as one.
+            # (Re-running is harmless for the callers that look at a timeout: they judge the exit status only.)
+            if not retry_ok:
+                return -999, '', 'TIMEOUT'
+            try:
+                r = run(timeout * 6)
+            except subprocess.TimeoutExpired:
+                return -999, '', 'TIMEOUT'
+        if via_d and os.listdir(cwd):
+            return -998, r[1], 'wrote %s relative to the process working directory instead of the -d directory; %s' % (sorted(os.listdir(cwd))[:5], r[2][-200:])
+        return r
+    finally:
+        if via_d:
+            shutil.rmtree(cwd, ignore_errors=True)
 
 
 def snapshot(ws, skip=('patches', 'series'), meta=False):
